@@ -1588,6 +1588,16 @@ class Pipeline:
                 pipeline_str += f"    Possible input arguments: {input_args}\n"
         return pipeline_str
 
+    def __setstate__(self, state: dict) -> None:
+        """Restore the pipeline and re-register it with its functions.
+
+        A `PipeFunc` does not pickle the (weak) references to the pipelines that contain it,
+        without them an update of a function would not invalidate the caches of the pipeline.
+        """
+        self.__dict__.update(state)
+        for f in self.functions:
+            f._pipelines.add(self)
+
     def copy(self, **update: Any) -> Pipeline:
         """Return a copy of the pipeline.
 
